@@ -37,6 +37,15 @@ CHECKS = {
     "C09": ("SIM", "exploration", "stateful property-based testing / fuzzing of message schedules with catch_unwind + panic hook as oracle",
             "Uniformly weighted chaos profile over all actions; any panic in repository code (also inside spawned worker futures) is a violation. Thorough tier adds a libFuzzer campaign over the same interpreter.",
             "correctly behaving workers only; harness panics are reported as inconclusive", "5/C09"),
+    "C10": ("RESTORE", "fault_enumeration", "crash-point enumeration over generated journals (stateful property-based testing produces the journals) with an independent reference fold as oracle",
+            "Journals are produced by SIM histories through the real journal process; every record boundary (and 8 interior offsets) is a crash point; the real restore runs on every prefix and is compared with a reference fold of the recorded events: startup succeeds, jobs/open flag/task sets/outcomes/counters, pending tasks exactly once with remaining dependencies, exact truncation of a torn tail, re-opened journal well formed; one restored server per case is continued to completion (every unfinished task runs exactly once).",
+            "crash = loss of a suffix of the file; interior cuts after the header", "5/C10"),
+    "C11": ("RESTORE", "fault_enumeration", "crash-point enumeration over generated (also pruned) journals, comparison of issued ids with every id the prefix mentions",
+            "For every cut of every generated journal the first job id, worker id and queue id that the restored server would issue and the server uid are compared with all ids mentioned anywhere in the prefix (jobs, workers in connect/loss/start records, queues).",
+            "queue ids: the counter handed to the autoalloc service is compared", "5/C11"),
+    "C12": ("RESTORE", "fault_enumeration", "metamorphic testing: Restore(pruned journal + suffix) vs Restore(unpruned journal + suffix) at every record boundary of the suffix",
+            "Histories with prune requests at random moments (live sets computed by the real handler, pruning done by the real journal process); a shadow unpruned journal is written from the same event stream; both are restored at every record boundary after the last prune and compared (jobs, outcomes, pending tasks with dependencies, next instance ids, crash counts, queues); the pruned file is re-read, appended to and pruned again.",
+            "id counters are not compared here (C11 does that)", "5/C12"),
     "C13": ("SIM", "exploration", "stateful property-based testing with a reference model of job book-keeping",
             "open/submit/close/cancel/forget sequences with arbitrary id arrays, entries and graphs interleaved with task progress; counters recounted, documented job state derivation, exactly-once completion at the right moment, submit atomicity and id assignment, completion report delivery to submit-with-wait clients (client connection suspended inside the journal flush).",
             "one client request per micro step; CLI-level preconditions (non-empty submits) respected", "5/C13"),
@@ -45,7 +54,7 @@ CHECKS = {
             "as C01", "5/C14"),
 }
 
-CLAIMED = ["C04", "C09", "C16"]
+CLAIMED = ["C01", "C02", "C03", "C04", "C05", "C06", "C07", "C08", "C09", "C10", "C11", "C12", "C13", "C14", "C16"]
 
 NOT_YET = {
     "C01": "check under construction in this round (SIM monitors written, not yet validated on the unchanged tree)",
@@ -104,6 +113,7 @@ def main():
         },
         "engines": [
             {"name": "ALLOC", "path": "/verif/harness/src/alloc.rs", "serves_properties": ["C04", "C16"], "kind_free_text": "real ResourceAllocator through tako::verif::AllocatorHandle, ledger + brute-force reference"},
+            {"name": "RESTORE", "path": "/verif/harness/src/restore.rs", "serves_properties": ["C10", "C11", "C12", "C03", "C06", "C07"], "kind_free_text": "journals written by SIM through the real journal process, cut at every record boundary, real restore vs independent reference fold; pruned vs shadow journal"},
             {"name": "SIM", "path": "/verif/harness/src/sim", "serves_properties": ["C01", "C02", "C03", "C05", "C06", "C07", "C08", "C09", "C13", "C14"], "kind_free_text": SIM},
         ],
         "checks": checks,
